@@ -103,7 +103,9 @@ def removeOfJson (self : Flav) (j : Json) : Except String Cmd := do
 def cmdOfJson (j : Json) : Except String WCmd := do
   let op ← (← j.getObjVal? "op").getStr?
   let user := (← jnatOpt j "user").getD 0
-  if op == "rmcache" then
+  if op == "clearcache" then
+    pure (.clearCache user)
+  else if op == "rmcache" then
     let s ← jnat j "stack"
     let f ← jstr j "flavor"
     pure (.rmCache user s f)
